@@ -371,23 +371,30 @@ type sideRes struct {
 	cls  string
 }
 
+// labelsTerm reads what the handshake attached to the connection (the returned context): identity, proto version,
+// client version.  The identity bytes are read from the context every time - never copied - so that a later read
+// of the same context shows what the connection is attributed to NOW.
+func labelsTerm(cctx context.Context) string {
+	idn, _ := peer.CtxIdentity(cctx)
+	pv, perr := peer.CtxProtoVersion(cctx)
+	if perr != nil {
+		pv = 0xffffffff
+	}
+	cv := peer.CtxPeerClientVersion(cctx)
+	id := "None"
+	if len(idn) > 0 {
+		if i, ok := identId(idn); ok {
+			id = vlib.Some(vlib.N(uint64(i)))
+		} else {
+			id = vlib.Some(vlib.N(999999))
+		}
+	}
+	return vlib.App("mkRes", id, vlib.N(uint64(pv)), cvTerm(cv))
+}
+
 func classify(cctx context.Context, err error) sideRes {
 	if err == nil {
-		idn, _ := peer.CtxIdentity(cctx)
-		pv, perr := peer.CtxProtoVersion(cctx)
-		if perr != nil {
-			pv = 0xffffffff
-		}
-		cv := peer.CtxPeerClientVersion(cctx)
-		id := "None"
-		if len(idn) > 0 {
-			if i, ok := identId(idn); ok {
-				id = vlib.Some(vlib.N(uint64(i)))
-			} else {
-				id = vlib.Some(vlib.N(999999))
-			}
-		}
-		return sideRes{vlib.App("Ok", vlib.App("mkRes", id, vlib.N(uint64(pv)), cvTerm(cv))), true, "ok"}
+		return sideRes{vlib.App("Ok", labelsTerm(cctx)), true, "ok"}
 	}
 	if errors.Is(err, context.Canceled) || errors.Is(err, context.DeadlineExceeded) {
 		return sideRes{"(Err ECtx)", false, "ctx"}
@@ -416,6 +423,8 @@ func classify(cctx context.Context, err error) sideRes {
 
 type hsRun struct {
 	out, in sideRes
+	// the contexts returned by HandshakeOutbound / HandshakeInbound (nil unless that side succeeded)
+	ctxOut, ctxIn context.Context
 	hang    string
 	frames  [5][]byte
 }
@@ -520,11 +529,17 @@ func runHandshake(cs *caseSpec) hsRun {
 	}
 	if ro != nil {
 		res.out = classify(ro.ctx, ro.err)
+		if ro.err == nil {
+			res.ctxOut = ro.ctx
+		}
 	} else {
 		res.out = sideRes{"(Err ECtx)", false, "hang"}
 	}
 	if ri != nil {
 		res.in = classify(ri.ctx, ri.err)
+		if ri.err == nil {
+			res.ctxIn = ri.ctx
+		}
 	} else {
 		res.in = sideRes{"(Err ECtx)", false, "hang"}
 	}
@@ -577,6 +592,7 @@ type runner struct {
 	w       *vlib.Writer
 	samples []interface{}
 	seedBad int
+	sessSample bool
 }
 
 func poolTerm(s *seedSpec) string {
@@ -604,12 +620,7 @@ func (rn *runner) do(cs caseSpec) {
 		}
 	}
 	r := runHandshake(&cs)
-	cancel := "None"
-	if cs.Cancel != nil {
-		cancel = vlib.Some(vlib.Pair(vlib.Bool(cs.Cancel.Out), vlib.N(uint64(cs.Cancel.K))))
-	}
-	kc := vlib.App("mkCase", sideTerm(cs.Out), sideTerm(cs.In), actTerm(cs.Acts[0]), actTerm(cs.Acts[1]),
-		actTerm(cs.Acts[2]), actTerm(cs.Acts[3]), cancel, vlib.Bool(cs.WFail), poolTerm(cs.Seed), poolTerm(cs.Seed))
+	kc := caseTerm(&cs)
 	term := vlib.App("HS", kc, r.out.term, r.in.term)
 	cs.Obs = r.out.term + " / " + r.in.term
 	mitm := false
@@ -642,6 +653,214 @@ func (rn *runner) do(cs caseSpec) {
 	if len(rn.samples) < 5 && (w.Count()%37 == 1) {
 		rn.samples = append(rn.samples, cs)
 	}
+}
+
+// ---------------------------------------------------------------- sessions
+// A session = several handshakes one after the other on the SAME secureservice objects (getSvc caches them by
+// configuration, so the same credential checker / verifier serves all handshakes of its service, as in production),
+// for different accounts, accepted and rejected.  The context returned by every successful side is kept alive for the
+// whole session; the labels of ALL earlier connections are read again after every later handshake and once more at the
+// end.  The pool of handshake objects is emptied only at the start of the session.
+
+type sessSpec struct {
+	Kind  string     `json:"kind"` // "session"
+	Steps []caseSpec `json:"steps"`
+	Gen   string     `json:"gen"`
+	Obs   string     `json:"observed,omitempty"`
+}
+
+func caseTerm(cs *caseSpec) string {
+	cancel := "None"
+	if cs.Cancel != nil {
+		cancel = vlib.Some(vlib.Pair(vlib.Bool(cs.Cancel.Out), vlib.N(uint64(cs.Cancel.K))))
+	}
+	return vlib.App("mkCase", sideTerm(cs.Out), sideTerm(cs.In), actTerm(cs.Acts[0]), actTerm(cs.Acts[1]),
+		actTerm(cs.Acts[2]), actTerm(cs.Acts[3]), cancel, vlib.Bool(cs.WFail), poolTerm(cs.Seed), poolTerm(cs.Seed))
+}
+
+func (rn *runner) doSession(ss sessSpec) {
+	w := rn.w
+	emptyPool()
+	n := len(ss.Steps)
+	runs := make([]hsRun, n)
+	laterOut := make([][]string, n)
+	laterIn := make([][]string, n)
+	reread := func(upto int) {
+		for j := 0; j <= upto; j++ {
+			if runs[j].ctxOut != nil {
+				laterOut[j] = append(laterOut[j], labelsTerm(runs[j].ctxOut))
+			}
+			if runs[j].ctxIn != nil {
+				laterIn[j] = append(laterIn[j], labelsTerm(runs[j].ctxIn))
+			}
+		}
+	}
+	hang := ""
+	okBoth, rejected := 0, 0
+	for k := range ss.Steps {
+		ss.Steps[k].Cancel, ss.Steps[k].Seed = nil, nil
+		runs[k] = runHandshake(&ss.Steps[k])
+		if runs[k].hang != "" && hang == "" {
+			hang = fmt.Sprintf("handshake %d of the session: %s", k, runs[k].hang)
+		}
+		if runs[k].out.ok && runs[k].in.ok {
+			okBoth++
+		}
+		if !runs[k].out.ok && !runs[k].in.ok {
+			rejected++
+		}
+		reread(k - 1) // all earlier connections, after this handshake
+	}
+	reread(n - 1) // everything once more at the end of the session
+	var items, obs []string
+	changed := false
+	for k := range ss.Steps {
+		items = append(items, vlib.App("mkSessObs", caseTerm(&ss.Steps[k]), runs[k].out.term, runs[k].in.term,
+			vlib.List(laterOut[k]), vlib.List(laterIn[k])))
+		obs = append(obs, runs[k].out.term+" / "+runs[k].in.term)
+		for _, t := range laterOut[k] {
+			changed = changed || vlib.App("Ok", t) != runs[k].out.term
+		}
+		for _, t := range laterIn[k] {
+			changed = changed || vlib.App("Ok", t) != runs[k].in.term
+		}
+	}
+	term := vlib.App("SESS", vlib.List(items))
+	ss.Kind = "session"
+	ss.Obs = strings.Join(obs, " ; ")
+	if changed {
+		ss.Obs += " ; LABELS OF AN EARLIER CONNECTION CHANGED"
+	}
+	idx := w.Add(term, ss, term, n >= 2 && okBoth >= 1)
+	if hang != "" {
+		w.Violation(idx, "C14-hang", hang, nil)
+	}
+	w.Stat("gen_" + ss.Gen)
+	w.Stat(fmt.Sprintf("session_len_%d", n))
+	w.Stat(fmt.Sprintf("session_handshakes_ok_%d_rejected_%d", okBoth, rejected))
+	if changed {
+		w.Stat("session_labels_changed_later")
+	}
+	if len(rn.samples) < 6 && n >= 3 && okBoth >= 2 && rejected >= 1 && !rn.sessSample {
+		rn.sessSample = true
+		rn.samples = append(rn.samples, ss)
+	}
+}
+
+// credentials naming [victim]'s identity, signed with [sign]
+func forgedCredFrame(victim int, sign []byte, ver uint32, cv string) []byte {
+	pl := handshakeproto.PayloadSignedPeerIds{Identity: accounts[victim].pubMsh, Sign: sign}
+	p, _ := pl.MarshalVT()
+	c := handshakeproto.Credentials{Type: handshakeproto.CredentialsType_SignedPeerIds, Payload: p, Version: ver, ClientVersion: cv}
+	b, _ := c.MarshalVT()
+	return frameOf(1, b)
+}
+
+var clientCVs = []string{"cvA", "cvB", "cvC", "cvD"}
+
+// genSession: one service (the "hub" of the session: a server accepting many clients, or a client dialling many
+// servers) takes part in every handshake; its peers change account / peer id / version / client version from step to
+// step.  Steps: honest; a forger that presents somebody's identity (often an earlier connection's account, or the
+// account of a connection established earlier) with a junk signature or a signature made for other endpoints;
+// an incompatible version; a generic tampering of one frame.
+func genSession(r *vlib.Rand) sessSpec {
+	n := 2 + r.Intn(4)
+	server := r.Chance(2, 3) // the hub is the incoming side
+	hubAcc := 1
+	hubPeer := "PBBB"
+	hubVer := versions[r.Intn(len(versions))]
+	hubVerify := r.Chance(7, 8)
+	hubViaNC := hubVerify && r.Chance(1, 4)
+	hubList := []uint32{0, 5, 6, 13}
+	if r.Chance(1, 4) {
+		hubList = []uint32{hubVer, versions[r.Intn(len(versions))]}
+		if hubList[0] == hubList[1] {
+			hubList = hubList[:1]
+		}
+	}
+	hubCV := "cvHub"
+	others := []struct {
+		acc  int
+		peer string
+	}{{0, "PAAA"}, {2, "PCCC"}, {0, "PDDD"}, {2, "PAAA"}, {1, "PCCC"}}
+	ss := sessSpec{Kind: "session", Gen: "session_server"}
+	if !server {
+		ss.Gen = "session_client"
+	}
+	var seenAcc []int
+	for k := 0; k < n; k++ {
+		o := others[r.Intn(len(others))]
+		if k == 1 && r.Chance(1, 2) { // make sure the second peer is another account than the first
+			for o.acc == ss.stepsAcc(server, 0) {
+				o = others[r.Intn(len(others))]
+			}
+		}
+		peerSide := sideSpec{Acc: o.acc, Peer: o.peer, Remote: hubPeer, Ver: versions[r.Intn(len(versions))],
+			List: []uint32{0, 5, 6, 13}, Verify: hubVerify, CV: clientCVs[r.Intn(len(clientCVs))]}
+		if r.Chance(1, 8) {
+			peerSide.Verify = r.Bool()
+		}
+		hubSide := sideSpec{Acc: hubAcc, Peer: hubPeer, Remote: o.peer, Ver: hubVer, List: hubList, Verify: hubVerify,
+			CV: hubCV, ViaNC: hubViaNC}
+		kind := r.Intn(10)
+		if k == 0 && kind >= 6 {
+			kind = 0 // the first handshake is mostly an honest one: there must be a connection to re-read
+		}
+		if kind == 8 { // incompatible version
+			peerSide.Ver = 77
+			peerSide.List = []uint32{0, 5, 6, 13, 77}
+		}
+		cs := caseSpec{WFail: false, Chunk: r.U64() % 1000, Gen: ss.Gen}
+		if server {
+			cs.Out, cs.In = peerSide, hubSide
+		} else {
+			cs.Out, cs.In = hubSide, peerSide
+		}
+		frame := 0 // the frame that carries the peer's credentials to the hub
+		if !server {
+			frame = 1
+		}
+		switch kind {
+		case 6, 7: // forged identity
+			victim := r.Intn(nAccounts)
+			if len(seenAcc) > 0 && r.Chance(2, 3) {
+				victim = seenAcc[r.Intn(len(seenAcc))]
+			}
+			var sign []byte
+			how := "forged_identity_junk_signature"
+			if r.Chance(1, 3) { // a real signature of the victim, but for other endpoints
+				p, q := peerIds[r.Intn(4)], peerIds[r.Intn(4)]
+				sg, err := accounts[victim].sign.Sign([]byte(p + q))
+				must(err)
+				sign = sg
+				how = "forged_identity_signature_for_other_endpoints"
+			} else {
+				sign = make([]byte, 64)
+				for i := range sign {
+					sign[i] = byte(r.U64())
+				}
+			}
+			cs.Acts[frame] = actSpec{Replace: true, Hex: hx(forgedCredFrame(victim, sign, peerSide.Ver, peerSide.CV)), How: how}
+		case 9: // generic tampering of one of the first two frames
+			honest := record(cs.Out, cs.In)
+			f := 1 + r.Intn(2)
+			cs.Acts[f-1] = genAct(r, f, honest, honest)
+		}
+		seenAcc = append(seenAcc, o.acc)
+		ss.Steps = append(ss.Steps, cs)
+	}
+	return ss
+}
+
+// account of the peer (non-hub) side of step k
+func (ss *sessSpec) stepsAcc(server bool, k int) int {
+	if k >= len(ss.Steps) {
+		return -1
+	}
+	if server {
+		return ss.Steps[k].Out.Acc
+	}
+	return ss.Steps[k].In.Acc
 }
 
 var versions = []uint32{0, 5, 6, 13}
@@ -820,10 +1039,22 @@ func main() {
 	rn := &runner{w: w}
 	rule := "every case is one real two-sided handshake (secureservice.HandshakeOutbound against HandshakeInbound over the " +
 		"harness connection); non-trivial = both ends succeed, or a frame was tampered with, or a context was cancelled, or the pool " +
-		"was pre-seeded by a previous handshake, or the two ends differ in version or mode; distinct by full case term"
+		"was pre-seeded by a previous handshake, or the two ends differ in version or mode; a session case is a sequence of 2..5 such handshakes on the " +
+		"same service objects (same credential checker) whose returned contexts are kept and re-read after every later handshake and at the end " +
+		"(non-trivial = at least 2 handshakes, at least one succeeding on both ends); distinct by full case term"
 
 	if o.Replay != "" {
 		for _, raw := range vlib.ReadReplay(o.Replay) {
+			var k struct {
+				Kind string `json:"kind"`
+			}
+			if json.Unmarshal(raw, &k) == nil && k.Kind == "session" {
+				var ss sessSpec
+				if json.Unmarshal(raw, &ss) == nil && len(ss.Steps) > 0 {
+					rn.doSession(ss)
+				}
+				continue
+			}
 			var cs caseSpec
 			if json.Unmarshal(raw, &cs) != nil {
 				continue
@@ -956,6 +1187,12 @@ func main() {
 		}
 		cs.Cancel = c
 		rn.do(cs)
+	}
+
+	// 4. sessions: the labels of every connection are read again after every later handshake on the same services
+	nSess := 150 * mult
+	for i := 0; i < nSess; i++ {
+		rn.doSession(genSession(r.Fork(uint64(3000000 + i))))
 	}
 
 	keys := make([]string, 0, len(svcCache))
